@@ -7,7 +7,7 @@
 (* and H2 (every die rolled), and ceilings on time and memory:             *)
 (*   ops         the operation counter when the run ended (or was cut)     *)
 (*   dispatches, rolls   the work actually done                            *)
-(*   maxExcess   max over all dispatches of work - K*ops at that moment    *)
+(*   maxExcess   max over all dispatches of work - 2*ops at that moment    *)
 (*   monotone    the counter never decreased between dispatches            *)
 (*   expect      the value of the FULL program where the generator knows   *)
 (* Budget!Accounting, Monotone, FailClosed, BoundedWork, Terminates are    *)
@@ -19,8 +19,9 @@ EXTENDS Integers, Sequences, TLC, Json, IOUtils
 Trace == ndJsonDeserialize(IOEnv.TRACE)
 VARIABLES l, bad
 
-K == 6
-C == 2000
+\* slack: a CoC / Fate instruction rolls 2-4 dice for one op (measured on the repaired tree: work never exceeds the limit,
+\* and never exceeds twice the counter)
+C == 200
 Tag(ok, t) == IF ok THEN {} ELSE {t}
 
 CheckBudget(e) ==
@@ -32,7 +33,7 @@ CheckBudget(e) ==
   \* a limit that is exceeded is reported, it does not crash
   \cup Tag(~e.panic, "crash-instead-of-error")
   \* Budget!BoundedWork and Accounting (also for runs that were cut short: the meters are read at the cut)
-  \cup Tag(e.limit > 0 => work <= K * e.limit + C, "work-not-bounded-by-budget")
+  \cup Tag(e.limit > 0 => 2 * work <= 3 * e.limit + 2 * C, "work-not-bounded-by-budget")
   \cup Tag(e.maxExcess <= C, "work-not-accounted")
   \cup Tag(e.monotone, "counter-decreased")
   \cup (IF cut THEN {}
